@@ -17,9 +17,12 @@ SUBST = [('solid', 'nacl', 58.4428), ('solid', 'glucose', 180.156), ('solid', 's
          ('enzyme', 'lipase', '25 U/mg'),          # a second lot carrying the same name
          ('liquid', 'water', 20.0276, 1.1056)]     # heavy water sold under the same name
 CONFIGS_QUICK = [{}, {'default_solid_density': 2.16, 'default_enzyme_density': 0.5},
-                 {'default_solid_density': 'inf', 'default_enzyme_density': 'inf'}]
+                 {'default_solid_density': 'inf', 'default_enzyme_density': 'inf'},
+                 # storage units that differ from each other and from the (shipped) display units
+                 {'moles_storage_unit': 'mmol', 'volume_storage_unit': 'L'}]
 CONFIGS_THOROUGH = [{'default_solid_density': s, 'default_enzyme_density': e} for s in (1, 2.16, 'inf')
-                    for e in (1, 0.5, 'inf')]
+                    for e in (1, 0.5, 'inf')] + [{'moles_storage_unit': 'mmol', 'volume_storage_unit': 'L'},
+                                                 {'moles_storage_unit': 'mol', 'volume_storage_unit': 'mL'}]
 
 
 def mk(pp, spec):
